@@ -11,6 +11,7 @@ field "?" -- which no theorem of Props/C05.lean accepts.
 """
 import ast
 import os
+import re
 
 from translate import find_func, lean_str
 
@@ -245,6 +246,284 @@ def data_writes(func):
     return res
 
 
+
+# ---------------------------------------------------------------- the wrapper `_viewshed_cpu` (C05, Model/ViewshedWrapper.lean)
+# A small symbolic evaluation of the straight-line body: every local name is replaced by the expression it was
+# assigned (in statement order, so re-assigned names such as `x`, `y`, `event_list` are followed), and the resulting
+# *inlined* expressions of the quantities the model needs are classified against the shapes the model understands.
+# Anything else becomes `.other "<inlined source>"` / a role `?<inlined source>` and `wrapperOk := false`.
+class _Subst(ast.NodeTransformer):
+    def __init__(self, env):
+        self.env = env
+
+    def visit_Name(self, n):
+        import copy
+        if isinstance(n.ctx, ast.Load) and n.id in self.env:
+            return copy.deepcopy(self.env[n.id])
+        return n
+
+    def visit_Subscript(self, n):
+        self.generic_visit(n)
+        # (a, b)[1] -> b
+        if isinstance(n.value, ast.Tuple) and isinstance(n.slice, ast.Constant) and isinstance(n.slice.value, int) \
+                and -len(n.value.elts) <= n.slice.value < len(n.value.elts):
+            return n.value.elts[n.slice.value]
+        return n
+
+
+def _inl_node(env, e):
+    import copy
+    return _Subst(env).visit(copy.deepcopy(e))
+
+
+def _inl(env, e):
+    """inlined, canonical source text of expression `e`"""
+    return ast.unparse(_inl_node(env, e))
+
+
+def _sym(name):
+    return ast.Name(id=name, ctx=ast.Load())
+
+
+def _coords_axis(txt):
+    """`raster.indexes.get('y').values` (or an equivalent spelling) -> 'y'"""
+    for pat in (r"raster\.indexes\.get\('(\w+)'\)\.values", r"raster\.indexes\['(\w+)'\]\.values",
+                r"raster\['(\w+)'\]\.values", r"raster\.coords\['(\w+)'\]\.values", r"raster\.(x|y)\.values"):
+        m = re.fullmatch(pat, txt)
+        if m:
+            return m.group(1)
+    return None
+
+
+def _canon_coords(txt):
+    """rewrite every spelling of a coordinate array as `coords:<axis>` inside an inlined expression"""
+    for pat in (r"raster\.indexes\.get\('(\w+)'\)\.values", r"raster\.indexes\['(\w+)'\]\.values",
+                r"raster\['(\w+)'\]\.values", r"raster\.coords\['(\w+)'\]\.values"):
+        txt = re.sub(pat, lambda m: f"coords:{m.group(1)}", txt)
+    return txt
+
+
+def _classify_res(txt):
+    """(c[-1] - c[0]) / (extent - 1) over the coordinate array of one axis -> ('coordSpan', axis, extent)"""
+    t = _canon_coords(txt)
+    m = re.fullmatch(r"\(coords:(\w+)\[-1\] - coords:(\w+)\[0\]\) / \(raster\.(shape\[\d\]) - 1\)", t)
+    if m and m.group(1) == m.group(2):
+        return ("coordSpan", m.group(1), m.group(3))
+    return ("other", t)
+
+
+def _classify_obs(txt):
+    """np.where(c == raster.sel(x=[x], y=[y], method='nearest').<axis>.values[0])[0][0] -> ('nearestThenEq', axis)"""
+    t = _canon_coords(txt)
+    m = re.fullmatch(r"np\.where\(coords:(\w+) == raster\.sel\(x=\[x\], y=\[y\], method='nearest'\)\.(\w+)\.values\[0\]\)\[0\]\[0\]", t)
+    if m and m.group(1) == m.group(2):
+        return ("nearestThenEq", m.group(1))
+    return ("other", t)
+
+
+def wrapper_facts(mod):
+    """facts of `_viewshed_cpu`: see the generated doc comments in Gen/ViewshedFacts.lean"""
+    import re as _re   # noqa: F401
+    f = find_func(mod, "_viewshed_cpu")
+    sweep = find_func(mod, "_viewshed_cpu_sweep")
+    init = find_func(mod, "_init_event_list")
+    W = dict(ok=True, notes=[], ew=("other", "?"), ns=("other", "?"), row=("other", "?"), col=("other", "?"),
+             range_checks=[], velev="?", vtarget="?", init_args=[], sweep_params=[], sweep_args=[], rcts=("?", "?"),
+             aes=("?", "?"), cast="?", cast_before_init=False, sorted_src="?")
+
+    def bad(msg):
+        W["ok"] = False
+        if len(W["notes"]) < 8:
+            W["notes"].append(msg[:200])
+    if f is None or sweep is None or init is None:
+        bad("missing function")
+        return W
+    W["sweep_params"] = [a.arg for a in sweep.args.args]
+    init_params = [a.arg for a in init.args.args]
+    env = {}
+    roles = {}          # inlined text -> role token
+    arrays = {}         # inlined allocation text -> role token
+    state = dict(cast_seen=False, init_seen=False, filled=set())
+
+    def role(txt):
+        return roles.get(txt) or roles.get(_canon_coords(txt)) or "?" + _canon_coords(txt)
+
+    def assign(name, node):
+        env[name] = node
+
+    for st in f.body:
+        # docstring / comments
+        if isinstance(st, ast.Expr) and isinstance(st.value, ast.Constant):
+            continue
+        # range checks: `if not lo <= v <= hi: raise E(...)`
+        if isinstance(st, ast.If) and len(st.body) == 1 and isinstance(st.body[0], ast.Raise) and not st.orelse:
+            t = _canon_coords(_inl(env, st.test))
+            m = re.fullmatch(r"not coords:(\w+)\.min\(\) <= (\w+) <= coords:(\w+)\.max\(\)", t)
+            exc = st.body[0].exc
+            en = exc.func.id if isinstance(exc, ast.Call) and isinstance(exc.func, ast.Name) else "?"
+            if m and m.group(1) == m.group(2) == m.group(3):
+                W["range_checks"].append((m.group(1), en))
+            else:
+                bad("unrecognised guard: " + t)
+            continue
+        # conditional re-assignment `if c: v = e` (no else)
+        if isinstance(st, ast.If) and not st.orelse and all(
+                isinstance(s, ast.Assign) and len(s.targets) == 1 and isinstance(s.targets[0], ast.Name) for s in st.body):
+            test = _inl_node(env, st.test)
+            for s in st.body:
+                nm = s.targets[0].id
+                assign(nm, ast.IfExp(test=test, body=_inl_node(env, s.value), orelse=env.get(nm, _sym(nm))))
+            continue
+        if isinstance(st, ast.Assign) and len(st.targets) == 1:
+            tg, val = st.targets[0], st.value
+            if isinstance(tg, ast.Name):
+                assign(tg.id, _inl_node(env, val))
+                continue
+            if isinstance(tg, ast.Tuple) and all(isinstance(e, ast.Name) for e in tg.elts):
+                if isinstance(val, ast.Tuple) and len(val.elts) == len(tg.elts):
+                    new = [_inl_node(env, v) for v in val.elts]
+                    for e, v in zip(tg.elts, new):
+                        assign(e.id, v)
+                else:
+                    base = _inl_node(env, val)
+                    for k, e in enumerate(tg.elts):
+                        assign(e.id, ast.Subscript(value=base, slice=ast.Constant(value=k), ctx=ast.Load()))
+                continue
+            if isinstance(tg, ast.Attribute) and ast.unparse(tg) == "raster.values":
+                W["cast"] = _inl(env, val)
+                W["cast_before_init"] = not state["init_seen"]
+                state["cast_seen"] = True
+                continue
+            bad("unrecognised assignment target: " + ast.unparse(tg))
+            continue
+        if isinstance(st, ast.Expr) and isinstance(st.value, ast.Call):
+            c = st.value
+            if isinstance(c.func, ast.Attribute) and c.func.attr == "fill" and isinstance(c.func.value, ast.Name) and len(c.args) == 1:
+                nm = c.func.value.id
+                assign(nm, ast.Call(func=_sym("filled"), args=[env.get(nm, _sym(nm)), _inl_node(env, c.args[0])], keywords=[]))
+                continue
+            if isinstance(c.func, ast.Name) and c.func.id == "_init_event_list":
+                state["init_seen"] = True
+                got = {}
+                for k, a in enumerate(c.args):
+                    if k < len(init_params):
+                        got[init_params[k]] = a
+                for kw in c.keywords:
+                    got[kw.arg] = kw.value
+                W["_init_raw"] = {k: (_inl(env, v), state["cast_seen"]) for k, v in got.items()}
+                W["_init_order"] = init_params
+                # the arrays handed to `_init_event_list` are filled by it: give them names
+                for k in ("event_list", "data", "visibility_grid"):
+                    if k in got and isinstance(got[k], ast.Name):
+                        arrays[k] = ast.unparse(env[got[k].id]) if got[k].id in env else "?"
+                        assign(got[k].id, _sym(f"ARR_{k}"))
+                continue
+            bad("unrecognised call statement: " + ast.unparse(c)[:80])
+            continue
+        if isinstance(st, ast.Return):
+            continue
+        bad("unrecognised statement: " + ast.unparse(st)[:80])
+
+    # ---- classification
+    # observer row / col and the resolutions are found through the call of the sweep (positional)
+    call = None
+    for n in ast.walk(f):
+        if isinstance(n, ast.Call) and isinstance(n.func, ast.Name) and n.func.id == "_viewshed_cpu_sweep":
+            call = n
+    if call is None or call.keywords or len(call.args) != len(W["sweep_params"]):
+        bad("`_viewshed_cpu_sweep` is not called with exactly its positional parameters")
+        return W
+    # the environment at the call = the final environment (the call is the last statement but the construction of the result)
+    raw = {p: _inl(env, a) for p, a in zip(W["sweep_params"], call.args)}
+    W["row"], W["col"] = _classify_obs(raw.get("vp_row", "?")), _classify_obs(raw.get("vp_col", "?"))
+    W["ew"], W["ns"] = _classify_res(raw.get("ew_res", "?")), _classify_res(raw.get("ns_res", "?"))
+    for tag, cl, key in (("obs", W["row"], "vp_row"), ("obs", W["col"], "vp_col"), ("res", W["ew"], "ew_res"), ("res", W["ns"], "ns_res")):
+        if cl[0] != "other":
+            roles[raw[key]] = f"{tag}:{cl[1]}"
+            roles[_canon_coords(raw[key])] = f"{tag}:{cl[1]}"
+        else:
+            bad(f"{key} = {cl[1]}")
+    robs, cobs = raw.get("vp_row", "?"), raw.get("vp_col", "?")
+    # viewpoint elevation and target
+    ve = raw.get("vp_elev", "?")
+    ve_c = ve.replace(robs, "obs:row").replace(cobs, "obs:col")
+    W["velev"] = ve_c
+    if ve_c == "float(raster.values[obs:row, obs:col]) + observer_elev":
+        roles[ve] = "velev"
+    else:
+        bad("vp_elev = " + ve_c)
+    vt = raw.get("vp_target", "?")
+    W["vtarget"] = vt
+    if vt == "target_elev if target_elev > 0 else 0.0":
+        roles[vt] = "vtarget"
+    else:
+        bad("vp_target = " + vt)
+    # arrays
+    shape_events = "np.zeros((3 * (raster.shape[0] * raster.shape[1] - 1), 7), dtype=np.float64)"
+    shape_data = "np.zeros(shape=(3, raster.shape[1]), dtype=np.float64)"
+    grid_ok = "filled(np.empty(shape=raster.shape, dtype=np.float64), INVISIBLE)"
+    alloc_role = {shape_events: "zeros:events", shape_data: "zeros:data", grid_ok: "filled:INVISIBLE"}
+    init_raw = W.pop("_init_raw", {})
+    init_order = W.pop("_init_order", [])
+    for p in init_order:
+        if p not in init_raw:
+            bad(f"`_init_event_list` parameter {p} not passed")
+            W["init_args"].append((p, "?"))
+            continue
+        txt, after_cast = init_raw[p]
+        if txt == "raster.values":
+            r_ = "raster.values:float64" if after_cast else "raster.values:uncast"
+        elif txt in alloc_role:
+            r_ = alloc_role[txt]
+        else:
+            r_ = role(txt)
+        if r_.startswith("?"):
+            bad(f"_init_event_list({p}=...) = {r_[1:]}")
+        W["init_args"].append((p, r_))
+    # the sorted event list and its split
+    sorted_txt = None
+    for nm, node in env.items():
+        txt = ast.unparse(node)
+        m = re.fullmatch(r"ARR_event_list\[np\.lexsort\(\(ARR_event_list\[:, (\w+)\], ARR_event_list\[:, (\w+)\]\)\)\]", txt)
+        if m:
+            sorted_txt = txt
+            W["sorted_src"] = f"lexsort({m.group(1)},{m.group(2)})"
+    if sorted_txt is None:
+        bad("no `event_list[np.lexsort((event_list[:, K1], event_list[:, K2]))]`")
+    for key, param, sl in (("rcts", "event_rcts", "[:, :3]"), ("aes", "event_aes", "[:, 3:]")):
+        txt = raw.get(param, "?")
+        m = re.fullmatch(r"np\.array\((.*)(\[:, :3\]|\[:, 3:\]), dtype=np\.(\w+)\)", txt)
+        if m and sorted_txt is not None and m.group(1) == sorted_txt:
+            W[key] = ("sorted" + m.group(2), m.group(3))
+            roles[txt] = key
+        else:
+            W[key] = ("?" + txt[:120], "?")
+            bad(f"{param} = {txt[:120]}")
+    # the positional arguments of the sweep as roles
+    for p in W["sweep_params"]:
+        txt = raw[p]
+        if txt == "raster.values":
+            r_ = "raster.values:float64" if state["cast_seen"] else "raster.values:uncast"
+        elif txt in ("ARR_data", "ARR_visibility_grid"):
+            r_ = alloc_role.get(arrays.get(txt[4:], ""), "?" + txt)
+        else:
+            r_ = role(txt)
+        if r_.startswith("?"):
+            bad(f"_viewshed_cpu_sweep({p}) = {r_[1:120]}")
+        W["sweep_args"].append(r_[:200])
+    if W["cast"] != "raster.values.astype(np.float64)":
+        bad("no in-place cast `raster.values = raster.values.astype(np.float64)`: " + W["cast"])
+    return W
+
+
+def lean_res(cl):
+    return f'.coordSpan {lean_str(cl[1])} {lean_str(cl[2])}' if cl[0] == "coordSpan" else f'.other {lean_str(cl[1][:300])}'
+
+
+def lean_obs(cl):
+    return f'.nearestThenEq {lean_str(cl[1])}' if cl[0] == "nearestThenEq" else f'.other {lean_str(cl[1][:300])}'
+
+
 def lean_int_pairs(ps):
     return "[" + ", ".join(f"({a}, {lean_str(b)})" for a, b in ps) + "]"
 
@@ -338,7 +617,52 @@ def generate(repo):
     out.append(f"def dataWritesElsewhere : List (Int × String) := {lean_int_pairs(dw['elsewhere'])}")
     out.append(f"def dataWriteGuards : List String := {lean_strs(dw['guards'])}")
     out.append("")
+    # the wrapper `_viewshed_cpu`
+    W = wrapper_facts(mod)
+    out += [
+        "/-! ### the wrapper `_viewshed_cpu` (symbolic evaluation of its straight-line body; Model/ViewshedWrapper.lean interprets these) -/",
+        "/-- where a cell size passed to the sweep comes from: `(c[-1] - c[0]) / (extent - 1)` over the coordinate array of `axis`",
+        "    with `extent` = `shape[0]` / `shape[1]` of the raster -- or anything else (inlined source) -/",
+        "inductive ResSrc where",
+        "  | coordSpan (axis extent : String)",
+        "  | other (src : String)",
+        "  deriving DecidableEq, Repr",
+        "/-- how the observer's row / column is found: `raster.sel(x=[x], y=[y], method='nearest')`, then the first index `i` with",
+        "    `coords[i] == ` the selected coordinate of `axis` (`np.where(coords == v)[0][0]`) -- or anything else (inlined source) -/",
+        "inductive ObsSrc where",
+        "  | nearestThenEq (axis : String)",
+        "  | other (src : String)",
+        "  deriving DecidableEq, Repr",
+        "/-- every statement of `_viewshed_cpu` was understood and every quantity below classified -/",
+        f"def wrapperOk : Bool := {'true' if W['ok'] else 'false'}",
+        f"def wrapperNotes : List String := {lean_strs(W['notes'])}",
+        "/-- the arguments `ew_res` / `ns_res` of `_viewshed_cpu_sweep` -/",
+        f"def ewResSrc : ResSrc := {lean_res(W['ew'])}",
+        f"def nsResSrc : ResSrc := {lean_res(W['ns'])}",
+        "/-- the arguments `vp_row` / `vp_col` of `_viewshed_cpu_sweep` -/",
+        f"def obsRowSrc : ObsSrc := {lean_obs(W['row'])}",
+        f"def obsColSrc : ObsSrc := {lean_obs(W['col'])}",
+        "/-- `if not coords.min() <= v <= coords.max(): raise E`, per axis, before the lookup -/",
+        f"def rangeChecks : List (String × String) := {lean_pairs(W['range_checks'])}",
+        "/-- `vp_elev` (row / col = whatever is passed as `vp_row` / `vp_col`) and `vp_target`, inlined -/",
+        f"def viewpointElevSrc : String := {lean_str(W['velev'][:300])}",
+        f"def viewpointTargetSrc : String := {lean_str(W['vtarget'][:300])}",
+        "/-- the in-place cast `raster.values = <this>` and whether it precedes the call of `_init_event_list` -/",
+        f"def rasterCast : String := {lean_str(W['cast'][:200])}",
+        f"def rasterCastBeforeInit : Bool := {'true' if W['cast_before_init'] else 'false'}",
+        "/-- `_init_event_list(...)`: parameter (in the order of its `def`) and the role of what is passed -/",
+        f"def initEventListArgs : List (String × String) := {lean_pairs(W['init_args'])}",
+        "/-- the sorted event list: `event_list[np.lexsort((event_list[:, K1], event_list[:, K2]))]` of the array `_init_event_list` filled -/",
+        f"def sortedEventsSrc : String := {lean_str(W['sorted_src'])}",
+        "/-- `event_rcts` / `event_aes`: which columns of the sorted event list, converted to which dtype -/",
+        f"def eventRctsSrc : String × String := ({lean_str(W['rcts'][0])}, {lean_str(W['rcts'][1])})",
+        f"def eventAesSrc : String × String := ({lean_str(W['aes'][0])}, {lean_str(W['aes'][1])})",
+        "/-- the parameters of `_viewshed_cpu_sweep` (its `def`) and the roles of the POSITIONAL arguments `_viewshed_cpu` passes -/",
+        f"def sweepParams : List String := {lean_strs(W['sweep_params'])}",
+        f"def sweepArgs : List String := {lean_strs(W['sweep_args'])}",
+        ""]
     out.append("end XrsVerif.Gen.Viewshed")
+    rep.update(wrapper=W)
     rep.update(consts=consts, observer=obs, fill=fill, lexsort=lexkeys, test=test, stored=stored,
                event_pos_notes=pos_notes, event_row_col_notes=rc_notes, corner_elev=ce, data_writes=dw)
     yield "ViewshedFacts.lean", "\n".join(out) + "\n", rep
